@@ -820,12 +820,389 @@ def oracle_pool(c, obs):
     return out
 
 
+# --------------------------------------------------------------------------- concurrency limiters, direct drive
+def gen_limiter(rng):
+    kind = rng.choice(["fixed", "dynamic", "weighted"])
+    limit = rng.randint(1, 5)
+    mn = rng.randint(1, limit) if kind == "dynamic" else 1
+    mx = rng.choice([None, limit, limit + 2]) if kind == "dynamic" else None
+    ops = []
+    for _ in range(rng.randint(1, 30)):
+        k = rng.random()
+        w = rng.choice([1, 1, 2, 3, limit, 0, -1]) if kind == "weighted" else 1
+        if k < 0.45:
+            ops.append(["acq", w])
+        elif k < 0.75:
+            ops.append(["rel", w])
+        elif k < 0.85:
+            ops.append(["has", max(w, 1)])
+        elif kind == "dynamic":
+            ops.append([rng.choice(["set", "up", "down"]), rng.randint(0, 7) if k < 0.95 else rng.randint(0, 3)])
+        else:
+            ops.append(["has", 1])
+    return dict(kind=kind, limit=limit, min=mn, max=mx, ops=ops)
+
+
+def impl_limiter(c):
+    from happysimulator.components.server.concurrency import DynamicConcurrency, FixedConcurrency, WeightedConcurrency
+    if c["kind"] == "fixed":
+        m = FixedConcurrency(c["limit"])
+    elif c["kind"] == "dynamic":
+        m = DynamicConcurrency(c["limit"], min_limit=c["min"], max_limit=c["max"])
+    else:
+        m = WeightedConcurrency(c["limit"])
+    out = []
+    for o in c["ops"]:
+        try:
+            if o[0] == "acq":
+                r = 1 if m.acquire(o[1]) else 0
+            elif o[0] == "rel":
+                m.release(o[1])
+                r = 3
+            elif o[0] == "has":
+                r = 1 if m.has_capacity(o[1]) else 0
+            elif o[0] == "set":
+                m.set_limit(o[1])
+                r = 3
+            elif o[0] == "up":
+                m.scale_up(o[1])
+                r = 3
+            else:
+                m.scale_down(o[1])
+                r = 3
+        except ValueError:
+            r = 2
+        out.append([r, m.active, m.available, m.limit])
+    return out
+
+
+def encode_limiter(c, obs):
+    from hsverif.coq import Raw
+    kind = Raw({"fixed": "KFixed", "dynamic": "KDynamic", "weighted": "KWeighted"}[c["kind"]])
+    names = {"acq": "CAcquire", "rel": "CRelease", "has": "CHas", "set": "CSetLimit", "up": "CScaleUp", "down": "CScaleDown"}
+    steps = [(Ctor(names[o[0]], o[1]), tuple(ob)) for o, ob in zip(c["ops"], obs)]
+    mx = None if c["max"] is None else SomeV(c["max"])
+    return term((kind, c["limit"], c["min"], mx, steps))
+
+
+def oracle_limiter(c, obs):
+    """never more outstanding holders/amount than the limit; never negative; available = limit - active."""
+    held = 0
+    changed = False
+    for k, (o, (r, active, avail, limit)) in enumerate(zip(c["ops"], obs)):
+        w = o[1] if c["kind"] == "weighted" else 1
+        if o[0] == "acq" and r == 1:
+            held += w
+            if active > limit:
+                return [dict(clause="a concurrency limiter never admits beyond its limit", step=k, active=active, limit=limit)]
+        if o[0] == "rel" and r == 3:
+            held = max(0, held - w)
+        if o[0] in ("set", "up", "down"):
+            changed = True
+        if active != held:
+            return [dict(clause="active equals what was acquired and not released", step=k, active=active, held=held)]
+        if active < 0 or (not changed and active > limit):
+            return [dict(clause="0 <= active <= limit", step=k, active=active, limit=limit)]
+        if avail != (max(0, limit - active) if c["kind"] == "dynamic" else limit - active):
+            return [dict(clause="held plus available equals capacity", step=k, active=active, avail=avail, limit=limit)]
+    return []
+
+
+# --------------------------------------------------------------------------- Bulkhead inside a real Simulation
+def gen_bulkhead(rng):
+    mx = rng.choice([1, 1, 2, 3])
+    mq = rng.choice([0, 1, 2, 3])
+    mw = rng.choice([None, None, 2_000_000, 5_000_000])
+    n = rng.randint(2, 9)
+    burst = rng.random() < 0.4
+    reqs = []
+    t = 0
+    for i in range(n):
+        t = t if burst and rng.random() < 0.7 else t + rng.choice([0, 500_000, 1_000_000, 3_000_000])
+        reqs.append(dict(at=t, service=rng.choice([0, 1_000_000, 2_000_000, 5_000_000, 8_000_000])))
+    return dict(kind="bulkhead", max=mx, maxq=mq, maxwait=mw, reqs=reqs)
+
+
+def impl_bulkhead(c):
+    from happysimulator import Entity, Event, Instant, Simulation
+    from happysimulator.components.resilience.bulkhead import Bulkhead
+    from hsverif.util import run_bounded
+    served = []
+
+    class Slow(Entity):
+        def __init__(self):
+            super().__init__("slow")
+            self.in_service = 0
+            self.peak = 0
+
+        def handle_event(self, event):
+            self.in_service += 1
+            self.peak = max(self.peak, self.in_service)
+            item = event.context["metadata"]["item"]
+            served.append(["start", item, self.now.nanoseconds])
+            yield event.context["metadata"]["service"] / 1e9
+            self.in_service -= 1
+            served.append(["end", item, self.now.nanoseconds])
+
+    tgt = Slow()
+    bh = Bulkhead("bh", tgt, max_concurrent=c["max"], max_wait_queue=c["maxq"],
+                  max_wait_time=None if c["maxwait"] is None else c["maxwait"] / 1e9)
+    trace = []
+    orig = bh.handle_event
+
+    def traced(event):
+        md = event.context.get("metadata", {})
+        now = bh.now.nanoseconds
+        r = orig(event)
+        if event.event_type == "_bh_response":
+            op = ["resp", md.get("request_id"), now]
+        elif event.event_type == "_bh_timeout":
+            op = ["tmo", md.get("request_id"), now]
+        else:
+            op = ["req", md.get("item"), now]
+        code, req, item = 0, 0, 0
+        evs = r if isinstance(r, list) else ([] if r is None else [r])
+        fw = [e for e in evs if e.target is tgt]
+        if fw:
+            m = fw[0].context["metadata"]
+            code, req, item = 1, m["_bh_request_id"], m["item"]
+        elif op[0] == "req":
+            st = bh.stats
+            if bh._wait_queue and bh._wait_queue[-1].event is event:
+                code, req = 2, bh._wait_queue[-1].request_id
+            else:
+                code = 3
+        st = bh.stats
+        trace.append(dict(op=op, code=code, req=req, item=item,
+                          k=[bh.active_count, st.total_requests, st.accepted_requests, st.rejected_requests,
+                             st.timed_out_requests, st.queued_requests, st.peak_concurrent, st.peak_queue_depth],
+                          queue=[w.request_id for w in bh._wait_queue], inflight=list(bh._in_flight.keys())))
+        return r
+
+    bh.handle_event = traced
+    sim = Simulation(entities=[tgt, bh])
+    for i, r in enumerate(c["reqs"]):
+        sim.schedule(Event(time=Instant(r["at"]), event_type="work", target=bh,
+                           context={"metadata": {"item": i, "service": r["service"]}}))
+    summary, verdict = run_bounded(sim, max_events_per_instant=600, max_events=20000, wall_s=20.0)
+    return dict(trace=trace, served=served, verdict=verdict, peak=tgt.peak, final_in_service=tgt.in_service)
+
+
+def encode_bulkhead(c, obs):
+    steps = []
+    for e in obs["trace"]:
+        name, a, now = e["op"]
+        op = Ctor({"req": "BRequest", "resp": "BResponse", "tmo": "BTimeout"}[name], a, now)
+        steps.append((op, (e["code"], e["req"], e["item"], e["k"], e["queue"], e["inflight"])))
+    return term((c["max"], c["maxq"], None if c["maxwait"] is None else SomeV(c["maxwait"]), steps))
+
+
+def oracle_bulkhead(c, obs):
+    out = []
+    if obs["verdict"] != "ok":
+        return [dict(clause="waiting consumes no simulated activity", verdict=obs["verdict"])]
+    if obs["peak"] > c["max"]:
+        out.append(dict(clause="a bulkhead never has more outstanding requests than max_concurrent", peak=obs["peak"], max=c["max"]))
+    fate = {}
+    queue = []
+    for n, e in enumerate(obs["trace"]):
+        k = e["k"]
+        if k[0] > c["max"] or len(e["queue"]) > c["maxq"]:
+            out.append(dict(clause="active <= max_concurrent and queue <= max_wait_queue", step=n, k=k, queue=e["queue"]))
+            return out
+        if k[1] != k[2] + k[3] + k[4] + len(e["queue"]):
+            out.append(dict(clause="every request is forwarded, queued, timed out or rejected exactly once", step=n, k=k, queue=len(e["queue"])))
+            return out
+        if e["queue"] and k[0] < c["max"]:
+            out.append(dict(clause="granted as soon as capacity allows", step=n, k=k, queue=e["queue"]))
+            return out
+        if e["op"][0] == "req" and e["code"] == 2:
+            queue.append(e["op"][1])
+        if e["op"][0] == "resp" and e["code"] == 1:
+            # forwarded from the queue: must be the oldest queued item that is still queued and not expired
+            while queue and queue[0] != e["item"]:
+                queue.pop(0)          # expired heads are skipped (counted as timed out)
+            if not queue:
+                out.append(dict(clause="queued requests are forwarded in arrival order", step=n, item=e["item"]))
+                return out
+            queue.pop(0)
+        if e["code"] == 1:
+            if e["item"] in fate:
+                out.append(dict(clause="each request is forwarded at most once", step=n, item=e["item"]))
+                return out
+            fate[e["item"]] = "forwarded"
+    starts = [s[1] for s in obs["served"] if s[0] == "start"]
+    if sorted(starts) != sorted(fate):
+        out.append(dict(clause="every forwarded request reaches the target exactly once", starts=starts, forwarded=sorted(fate)))
+    if obs["final_in_service"] != 0:
+        out.append(dict(clause="every admitted request completes", in_service=obs["final_in_service"]))
+    return out
+
+
+# --------------------------------------------------------------------------- Barrier inside a real Simulation
+def gen_barrier(rng):
+    parties = rng.choice([1, 2, 2, 3, 4])
+    nw = rng.randint(1, 6)
+    workers = []
+    for _ in range(nw):
+        script = []
+        for _ in range(rng.choice([1, 1, 2, 3])):
+            script += [["wait", 0], ["hold", rng.choice([0, 1000, 2000, 5000])]]
+        workers.append(dict(at=rng.choice([0, 0, 500, 1000, 3000]), script=script))
+    ctl = rng.choice([None, None, None, ["reset", rng.choice([700, 2500, 6000])], ["abort", rng.choice([700, 2500, 6000])]])
+    return dict(kind="barrier", parties=parties, workers=workers, ctl=ctl)
+
+
+def impl_barrier(c):
+    from happysimulator import Entity, Event, Instant, Simulation
+    from happysimulator.components.sync import Barrier
+    from happysimulator.core.sim_future import SimFuture
+    from hsverif.util import run_bounded
+    bar = Barrier("b", c["parties"])
+    trace, wlog = [], []
+    reg = {}
+    counters = dict(resumes=0, intended=0)
+
+    def snap():
+        st = bar.stats
+        return [bar.waiting, bar.generation, int(bar.broken), st.wait_calls, st.barrier_breaks, st.resets, st.total_wait_time_ns]
+
+    def rec(op, code, ids=()):
+        if len(trace) < 100:
+            trace.append(dict(op=op, code=code, woken=list(ids), k=snap()))
+
+    class Worker(Entity):
+        def __init__(self, idx, script):
+            super().__init__(f"w{idx}")
+            self.idx, self.script, self.done, self.blocked = idx, script, False, False
+
+        def handle_event(self, event):
+            i = self.idx
+            for st in self.script:
+                ns = lambda: self.now.nanoseconds  # noqa: E731
+                if st[0] == "hold":
+                    counters["intended"] += 1
+                    yield st[1] / 1e9
+                    counters["resumes"] += 1
+                    continue
+                before = [reg.get(id(w), -1) for w in bar._waiters]
+                gen = bar.wait()
+                try:
+                    v = next(gen)
+                except StopIteration as e:
+                    rec(["start", i, ns()], 0, before)
+                    wlog.append(["tripped", i, ns(), e.value, before])
+                    continue
+                except RuntimeError:
+                    rec(["start", i, ns()], 3)
+                    wlog.append(["refused", i, ns()])
+                    continue
+                reg[id(bar._waiters[-1])] = i
+                self.blocked = True
+                counters["intended"] += 1
+                rec(["start", i, ns()], 1, [c["parties"] - bar.waiting])
+                wlog.append(["parked", i, ns(), isinstance(v, SimFuture)])
+                while True:
+                    x = yield v
+                    counters["resumes"] += 1
+                    try:
+                        v = gen.send(x)
+                    except StopIteration as e:
+                        rec(["resume", i, ns()], 2)
+                        wlog.append(["passed", i, ns(), e.value])
+                        break
+                    except RuntimeError:
+                        rec(["resume", i, ns()], 3)
+                        wlog.append(["error", i, ns()])
+                        break
+                    rec(["resume", i, ns()], 5)
+                self.blocked = False
+            self.done = True
+
+    class Ctl(Entity):
+        def handle_event(self, event):
+            before = [reg.get(id(w), -1) for w in bar._waiters]
+            if c["ctl"][0] == "reset":
+                bar.reset()
+                rec(["reset", 0, self.now.nanoseconds], 4, before)
+            else:
+                bar.abort()
+                rec(["abort", 0, self.now.nanoseconds], 4, before)
+            wlog.append([c["ctl"][0], -1, self.now.nanoseconds, before])
+
+    workers = [Worker(i, w["script"]) for i, w in enumerate(c["workers"])]
+    ctl = Ctl("ctl")
+    sim = Simulation(entities=[bar, ctl] + workers)
+    for w, spec in zip(workers, c["workers"]):
+        sim.schedule(Event(time=Instant(spec["at"]), event_type="go", target=w))
+    if c["ctl"]:
+        sim.schedule(Event(time=Instant(c["ctl"][1]), event_type="ctl", target=ctl))
+    summary, verdict = run_bounded(sim, max_events_per_instant=600, max_events=20000, wall_s=20.0)
+    return dict(trace=trace, wlog=wlog, verdict=verdict, done=[w.done for w in workers], blocked=[w.blocked for w in workers],
+                events=None if summary is None else summary.total_events_processed,
+                resumes=counters["resumes"], intended=counters["intended"], final=snap())
+
+
+def encode_barrier(c, obs):
+    steps = []
+    for e in obs["trace"]:
+        name, i, now = e["op"]
+        op = {"start": lambda: Ctor("BrWaitStart", i, now), "resume": lambda: Ctor("BrWaitResume", i, now),
+              "reset": lambda: Ctor("BrReset"), "abort": lambda: Ctor("BrAbort")}[name]()
+        steps.append((op, (e["code"], e["woken"], e["k"])))
+    return term((c["parties"], steps))
+
+
+def oracle_barrier(c, obs):
+    out = []
+    p = c["parties"]
+    if obs["verdict"] != "ok":
+        return [dict(clause="waiting consumes no simulated activity, so the clock advances to the release", mechanism="spin-wait", verdict=obs["verdict"])]
+    nstart = len(c["workers"]) + (1 if c["ctl"] else 0)
+    still = sum(1 for b in obs["blocked"] if b)          # parties short of a full group stay parked, legitimately
+    if obs["resumes"] != obs["intended"] - still or obs["events"] != nstart + obs["resumes"]:
+        out.append(dict(clause="waiting consumes no simulated activity", mechanism="extra-events", events=obs["events"], expected=nstart + obs["intended"] - still))
+    waiting = []
+    for n, e in enumerate(obs["trace"]):
+        if e["k"][0] >= p:
+            out.append(dict(clause="fewer than `parties` processes are blocked at a barrier", step=n, waiting=e["k"][0]))
+            return out
+        if e["op"][0] == "start" and e["code"] == 1:
+            waiting.append(e["op"][1])
+        if e["code"] in (0, 4):
+            if e["woken"] != waiting:
+                out.append(dict(clause="a trip releases every waiter, in arrival order, each once", step=n, woken=e["woken"], waiting=list(waiting)))
+                return out
+            if e["code"] == 0 and len(waiting) != p - 1:
+                out.append(dict(clause="the barrier trips exactly when `parties` have arrived", step=n, waiting=list(waiting)))
+                return out
+            waiting = []
+    # released waiters pass at the instant of the trip
+    rel = {}
+    for e in obs["wlog"]:
+        if e[0] in ("tripped", "reset", "abort"):
+            for x in e[-1]:
+                rel.setdefault(x, []).append(e[2])
+    passed = {}
+    for e in obs["wlog"]:
+        if e[0] in ("passed", "error") and e[1] in rel:
+            passed.setdefault(e[1], []).append(e[2])
+    for x, ts in rel.items():
+        if passed.get(x, []) != ts:
+            out.append(dict(clause="the clock advances to the release: released waiters pass at the instant of the trip", waiter=x, released=ts, passed=passed.get(x)))
+            break
+    return out
+
+
 ROBS = "Z * list (rop * robs)"
 
 FAMILIES = [
     Family("resource", IMPORTS, "ok_resource", ROBS, gen_resource, impl_resource, encode_resource,
            oracle_resource, lambda c, o: any(s["code"] == 4 and s["resolved"] for s in o), attribute_resource,
            describe=lambda c: f"cap={c['cap']},ops={len(c['ops']) // 10 * 10}+"),
+    Family("limiter", IMPORTS, "ok_concurrency", "ckind * Z * Z * option Z * list (cop * (Z * Z * Z * Z))", gen_limiter,
+           impl_limiter, encode_limiter, oracle_limiter, lambda c, o: any(x[0] == 0 for x in o),
+           describe=lambda c: f"{c['kind']},limit={c['limit']}"),
     Family("resource_sim", IMPORTS, "ok_resource", ROBS, gen_sync("resource"), impl_sync, encode_sync,
            oracle_sync, nontrivial_sync, attribute_sync, parallel=True,
            describe=lambda c: f"cap={c['cap']},workers={len(c['workers'])}"),
@@ -838,6 +1215,12 @@ FAMILIES = [
     Family("rwlock_sim", IMPORTS, "ok_rwlock", "option Z * list (rwop * sobs)", gen_sync("rwlock"), impl_sync, encode_sync,
            oracle_sync, nontrivial_sync, attribute_sync, parallel=True,
            describe=lambda c: f"max={c['cap']},workers={len(c['workers'])}"),
+    Family("barrier_sim", IMPORTS, "ok_barrier", "Z * list (brop * sobs)", gen_barrier, impl_barrier, encode_barrier,
+           oracle_barrier, lambda c, o: any(e["code"] == 0 and e["woken"] for e in o["trace"]), parallel=True,
+           describe=lambda c: f"parties={c['parties']},workers={len(c['workers'])}"),
+    Family("bulkhead_sim", IMPORTS, "ok_bulkhead", "Z * Z * option Z * list (bop * bobs)", gen_bulkhead, impl_bulkhead,
+           encode_bulkhead, oracle_bulkhead, lambda c, o: any(e["op"][0] == "resp" and e["code"] == 1 for e in o["trace"]),
+           parallel=True, describe=lambda c: f"max={c['max']},q={c['maxq']}"),
     Family("pool_sim", IMPORTS, "ok_pool", "Z * Z * Z * list (pop * pobs)", gen_pool, impl_pool, encode_pool,
            oracle_pool, lambda c, o: any(e["code"] == 4 for e in o["trace"]), parallel=True,
            describe=lambda c: f"max={c['max']},workers={len(c['workers'])}"),
@@ -850,7 +1233,7 @@ TRUSTED = [
     "model choices: amounts and capacities are integers (Z); client/grant identities are creation indices; time is an explicit input of each operation",
 ]
 
-COQ_FILES = ["C09/Model.v", "C09/Resource.v", "C09/Sync.v", "C09/Limits.v", "C09/Pool.v", "C09/Props.v"]
+COQ_FILES = ["C09/Model.v", "C09/Resource.v", "C09/Sync.v", "C09/Limits.v", "C09/Pool.v", "C09/Bulk.v", "C09/Barrier.v", "C09/Props.v"]
 
 
 class _Sharded:
